@@ -224,14 +224,26 @@ UnitsPtr Model::takeUnits(const std::string &name)
 
 bool Model::replaceUnits(size_t index, const UnitsPtr &units)
 {
-    bool status = false;
-    if (removeUnits(index)) {
-        pFunc()->mUnits.insert(pFunc()->mUnits.begin() + ptrdiff_t(index), units);
-        units->pFunc()->setParent(shared_from_this());
-        status = true;
+    if ((units == nullptr) || (index >= pFunc()->mUnits.size())) {
+        return false;
     }
 
-    return status;
+    auto oldUnits = pFunc()->mUnits[index];
+    if (oldUnits == units) {
+        return true;
+    }
+
+    // Prevent the new units being listed by two models: move it to this model.
+    auto thisModel = shared_from_this();
+    if (units->hasParent() && (units->parent() != thisModel)) {
+        auto otherParent = std::dynamic_pointer_cast<Model>(units->parent());
+        otherParent->removeUnits(units);
+    }
+    oldUnits->pFunc()->removeParent();
+    pFunc()->mUnits[index] = units;
+    units->pFunc()->setParent(thisModel);
+
+    return true;
 }
 
 bool Model::replaceUnits(const std::string &name, const UnitsPtr &units)
